@@ -138,3 +138,40 @@ def _gru_output_shape(case, mm):
 
 PREDICATES["C02-gru-output-grad-shape"] = _gru_output_shape
 PREDICATES["C14-gru-output-grad-shape"] = _gru_output_shape
+
+
+@predicate("C03-int-pow-float-two")
+def _c03_int_pow(case, mm):
+    """`**` with an integer/bool tensor base and a scalar exponent equal to 1 or 2: the Positive/Square short-cut
+    keeps the base's dtype (or fails for bool, which has no `positive` loop) where NumPy promotes."""
+    if case.get("name") != "op_pow" or mm.kind not in ("differs_from_numpy", "mygrad_raised"):
+        return False
+    if mm.kind == "differs_from_numpy" and "dtype" not in mm.detail:
+        return False
+    if mm.kind == "mygrad_raised" and "positive" not in mm.detail:
+        return False
+    ops = case["ops"]
+    base, ex = ops[0], ops[1]
+    if base.get("kind") != "tensor":
+        return False
+    if ex["kind"] == "pyfloat":
+        v = float(ex["v"]) + (0.5 if ex.get("half") else 0.0)
+    elif ex["kind"] in ("pyint", "pybool", "npscalar"):
+        v = float(ex["v"])
+    elif ex["kind"] == "array" and ex.get("shape") == []:
+        import numpy as np
+
+        dt = np.dtype(ex["dtype"])
+        raw = float(ex["vals"][0])
+        v = raw / 2.0 if (dt.kind == "f" and ex.get("half")) else (abs(raw) if dt.kind == "u" else raw)
+        if dt.kind == "b":
+            v = float(int(raw) % 2)
+    else:
+        return False
+    return v in (1.0, 2.0)
+
+
+def np_kind(dt):
+    import numpy as np
+
+    return np.dtype(dt).kind if dt else "?"
